@@ -186,8 +186,8 @@ def r_lookup_algorithm(r, prog):
     sp = [c for c in f.calls() if c.name() == 'strip_prefix']
     fn_ = [c for c in f.calls() if c.name() == 'find_node']
     loops = f.natural_loops()
-    if not (sp and len(fn_) == 2 and loops):
-        raise AnchorMissing('strip_prefix / two find_node calls / scope loop in find_node_with_scope')
+    if not (sp and fn_ and loops):
+        raise AnchorMissing('strip_prefix / find_node calls / scope loop in find_node_with_scope')
     head, body = loops[0]
     g = [c for c in fn_ if 'strip_prefix(' in vexpr(f, c.args[1])]
     plain = [c for c in fn_ if vexpr(f, c.args[1]) == 'arg2']
